@@ -686,7 +686,7 @@ class Application():
 
     def pop_after_response(self, fun: Callable):
         """Remove handler added by add_after_response or after_response."""
-        if not self.__before.count(fun):
+        if not self.__after.count(fun):
             raise ValueError("%s is not in list" % str(fun))
         self.__after.remove(fun)
 
